@@ -43,14 +43,15 @@ CH_GLITCHES = '{"dataerr", "temperr", "shortwrite"}'
 def chan_exhaustive(ctx):
     """Exhaustive-only instances of the Noise channel (not printed): (name, constants, cfg substitutions)."""
     t = ctx.tier == "thorough"
-    n = 10 if t else 9
+    n = 10 if t else 8
+    # (Other leaves every variable unchanged: nothing to check exhaustively, it exists for the replay)
     base = {"Tag": 2, "MaxPT": 3, "Bufs": S(range(1, 7)), "Shorts": S([0, 1, 2]), "Faults": ALL_FAULTS,
-            "Others": ALL_OTHERS, "Glitches": CH_GLITCHES}
+            "Others": "{}", "Glitches": CH_GLITCHES}
     return [
         ("chan-x", dict(base, MaxSent=n, MaxWrite=n, MaxFaults=1), []),
         # two faults per behaviour: a second fault can undo the first (swap twice, duplicate then drop), so only
         # the clauses that hold whatever happened to the wire are checked: nothing but a prefix is ever delivered
-        ("chan-x2", dict(base, MaxSent=6 if t else 5, MaxWrite=6 if t else 5, MaxFaults=2, Glitches="{}"),
+        ("chan-x2", dict(base, MaxSent=6 if t else 4, MaxWrite=6 if t else 4, MaxFaults=2, Glitches="{}"),
          [(CH_INV, "INVARIANTS TypeOK Prefix Complete Conservation Nonces")]),
     ]
 
@@ -83,19 +84,24 @@ LAYERS = {
                 {"PeekSize": 3, "MaxSent": 6, "MaxWrite": 4, "Bufs": S([0, 1, 2, 3, 4]), "Shorts": S([0, 1, 2]), "Glitches": RGLITCHES},
                 {"PeekSize": 3, "MaxSent": 8, "MaxWrite": 5, "Bufs": S([0, 1, 2, 3, 4, 5]), "Shorts": S([0, 1, 2]), "Glitches": RGLITCHES}),
     "mux": ("C02_MCMux", "C02_MCMux.cfg",
-            {"Streams": S([1, 2]), "MaxSent": 2, "MaxWrite": 2, "MaxMsg": 1, "MaxTotal": 2, "MaxClose": 2, "Bufs": S([1, 2])},
-            {"Streams": S([1, 2]), "MaxSent": 2, "MaxWrite": 2, "MaxMsg": 1, "MaxTotal": 3, "MaxClose": 2, "Bufs": S([1, 2])}),
+            {"Streams": S([1, 2]), "MaxSent": 2, "MaxWrite": 2, "MaxMsg": 1, "MaxTotal": 2, "MaxClose": 2, "Bufs": S([1, 2]), "Glitches": "{}"},
+            {"Streams": S([1, 2]), "MaxSent": 2, "MaxWrite": 2, "MaxMsg": 1, "MaxTotal": 3, "MaxClose": 2, "Bufs": S([1, 2]), "Glitches": "{}"}),
+    # the same with one glitch of the underlying connection per behaviour
+    "muxg": ("C02_MCMux", "C02_MCMux.cfg",
+             {"Streams": S([1, 2]), "MaxSent": 2, "MaxWrite": 2, "MaxMsg": 1, "MaxTotal": 2, "MaxClose": 1, "Bufs": S([2]), "Glitches": CH_GLITCHES},
+             {"Streams": S([1, 2]), "MaxSent": 2, "MaxWrite": 2, "MaxMsg": 1, "MaxTotal": 2, "MaxClose": 1, "Bufs": S([1, 2]), "Glitches": CH_GLITCHES}),
     "lazy": ("C02_MCLazyMS", "C02_MCLazyMS.cfg",
              {"MaxSent": 2, "MaxWrite": 2, "Bufs": S([1, 2])},
              {"MaxSent": 3, "MaxWrite": 2, "Bufs": S([1, 2])}),
 }
 # second mux replay instance (thorough): every channel may be half-closed
-MUX_B = {"Streams": S([1, 2]), "MaxSent": 2, "MaxWrite": 2, "MaxMsg": 1, "MaxTotal": 2, "MaxClose": 4, "Bufs": S([1, 2])}
+MUX_B = {"Streams": S([1, 2]), "MaxSent": 2, "MaxWrite": 2, "MaxMsg": 1, "MaxTotal": 2, "MaxClose": 4, "Bufs": S([1, 2]),
+         "Glitches": "{}"}
 
 
 def mux_exhaustive(ctx):
     return {"Streams": S([1, 2]), "MaxSent": 2, "MaxWrite": 2, "MaxMsg": 1, "MaxTotal": 4 if ctx.tier == "thorough" else 3,
-            "MaxClose": 4, "Bufs": S([1, 2])}
+            "MaxClose": 4, "Bufs": S([1, 2]), "Glitches": CH_GLITCHES if ctx.tier == "thorough" else "{}"}
 
 
 # ------------------------------------------------------------------------------------------------
@@ -291,6 +297,7 @@ LAYER_NEED = {
     "sampled": ["op:peek", "op:send", "op:close", "peeked-short-buffer", "eof", "read-glitch:dataerr",
                 "read-glitch:temperr", "glitch:eofdata"],
     "mux": ["op:open", "op:write", "op:closewrite", "op:read", "read-after-own-closewrite", "eof"],
+    "muxg": ["op:open", "op:write", "op:read", "glitch:dataerr", "glitch:temperr", "glitch:shortwrite"],
     "lazy": ["lazy-flush-by:cwrite", "lazy-flush-by:creadbegin", "lazy-flush-by:cclosewrite", "op:swrite", "op:sread",
              "read-after-own-closewrite", "eof"],
 }
@@ -379,7 +386,7 @@ def run(ctx):
     # rounds rotate the members of every boundary class; the trusted-dependency layers get fewer of them
     envs = {
         "noise": dict(base, VERIF_C02_ROUNDS=rounds),
-        "tls": dict(base, VERIF_C02_ROUNDS=2 if thorough else 1, VERIF_C02_TLS_SHARE=1 if thorough else 3),
+        "tls": dict(base, VERIF_C02_ROUNDS=2 if thorough else 1, VERIF_C02_TLS_SHARE=1 if thorough else 4),
         "psk": dict(base, VERIF_C02_ROUNDS=rounds),
         "sampled": dict(base, VERIF_C02_ROUNDS=rounds),
         "mux": dict(base, VERIF_C02_ROUNDS=2 if thorough else 1, VERIF_C02_MUX_SHARE=1 if thorough else 2),
@@ -390,25 +397,27 @@ def run(ctx):
 
     states = trans = 0
     per = {}
-    # At most 4 TLC workers at any time: the exhaustive runs one after the other with 2 workers, the printing
-    # runs in two lanes with 1 worker each.  The Go test binaries are built meanwhile, and the replay starts as
+    # At most 4 TLC workers at any time: the exhaustive runs one after the other (quick: 1 worker, thorough: 2),
+    # the printing runs in lanes with 1 worker each (quick: 3, thorough: 2).  The Go test binaries are built meanwhile, and the replay starts as
     # soon as the behaviours are written (the exhaustive lane may still be running then).
-    with cf.ProcessPoolExecutor(max_workers=1) as px, cf.ProcessPoolExecutor(max_workers=2) as pg, \
+    lanes, xw = (2, 2) if thorough else (3, 1)
+    with cf.ProcessPoolExecutor(max_workers=1) as px, cf.ProcessPoolExecutor(max_workers=lanes) as pg, \
             cf.ProcessPoolExecutor(max_workers=3) as pb, cf.ProcessPoolExecutor(max_workers=len(keys)) as ph:
         fb = [pb.submit(_prebuild, (ctx, k)) for k in sorted(set(k for k in keys))]
         xinst = chan_exhaustive(ctx)
         xconsts = xinst[0][1]
-        fx = [px.submit(_exhaustive, (ctx, "C02_MC", "C02_MC.cfg", name, consts, 2, False, repl))
+        fx = [px.submit(_exhaustive, (ctx, "C02_MC", "C02_MC.cfg", name, consts, xw, False, repl))
               for name, consts, repl in xinst]
-        fx.append(px.submit(_exhaustive, (ctx, "C02_MCMux", "C02_MCMux.cfg", "mux-x", mux_exhaustive(ctx), 2, False, [])))
+        fx.append(px.submit(_exhaustive, (ctx, "C02_MCMux", "C02_MCMux.cfg", "mux-x", mux_exhaustive(ctx), xw, False, [])))
         fg = []
         jobs = [("C02_MC", "C02_MC.cfg", name, consts, False) for name, consts in chan_replay(ctx)]
         for lname, (module, template, quick, thor) in LAYERS.items():
-            jobs.append((module, template, lname + "_a", thor if thorough else quick, False if lname in ("mux", "lazy") else None))
+            gname = "mux_g" if lname == "muxg" else lname + "_a"
+            jobs.append((module, template, gname, thor if thorough else quick, False))
         if thorough:
             jobs.append(("C02_MCMux", "C02_MCMux.cfg", "mux_b", MUX_B, False))
         # biggest first so that the two lanes finish together
-        order = {"chan_a": 0, "chan_b": 1, "mux_a": 2, "mux_b": 3}
+        order = {"chan_a": 0, "chan_b": 1, "mux_a": 2, "mux_b": 3, "chan_g": 4, "mux_g": 5}
         jobs.sort(key=lambda j: order.get(j[2], 9))
         for module, template, name, consts, deadlock in jobs:
             fg.append(pg.submit(_graph, (ctx, module, template, name, consts, beh_dir, 40, deadlock, None)))
@@ -435,7 +444,7 @@ def run(ctx):
             for k, v in stats.items():
                 chan_stats[k] = chan_stats.get(k, 0) + v
         else:
-            _need(stats, LAYER_NEED[name.split("_")[0]], name)
+            _need(stats, LAYER_NEED["muxg" if name == "mux_g" else name.split("_")[0]], name)
     _need(chan_stats, CHAN_NEED, "chan_*")
     for name, distinct, generated, wall in xres:
         states += distinct
@@ -467,7 +476,7 @@ def run(ctx):
         samples += (res.get("samples") or [])[:1]
         extras[k] = dict(res.get("extra") or {}, walks=res["replayed"], steps=res["steps"], distinct=res["distinct"])
         if res["replayed"] == 0 and not res.get("mismatches"):
-            raise MachineryError("harness %s replayed nothing" % k)
+            machinery.append("harness %s replayed nothing (%s)" % (k, {a: b for a, b in (res.get("extra") or {}).items() if a.startswith("stack_unavailable")}))
     if machinery and not ctx.violations:
         # (with a violation at hand a harness that could not go on is a consequence, not a machinery problem)
         raise MachineryError(machinery[0])
@@ -480,10 +489,11 @@ def run(ctx):
                 raise MachineryError("no %s fault was applied to a real Noise session" % kind)
         if not nz.get("noise_real_handshakes"):
             raise MachineryError("no real Noise handshake was run")
-        chan_steps = sum(v["steps"] for k, v in per.items() if k.startswith("chan_"))
+        # (walks of chan_g may be cut short: a reader that failed for good after a glitch ends its walk)
+        chan_steps = sum(v["steps"] for k, v in per.items() if k in ("chan_a", "chan_b"))
         if nz["steps"] < rounds * chan_steps:
             raise MachineryError("Noise replay executed %d steps for %d channel walk steps" % (nz["steps"], rounds * chan_steps))
-        for k in ("psk", "sampled", "lazy"):
+        for k in ("psk", "sampled", "lazy"):  # (mux, tls and the stacks replay a share)
             if extras[k]["steps"] < per[k + "_a"]["steps"]:
                 raise MachineryError("%s replay executed %d steps for %d walk steps" % (k, extras[k]["steps"], per[k + "_a"]["steps"]))
     log("C02: %d states, %d transitions generated, %d replay transitions, %d walks; executed %d walks / %d steps"
